@@ -50,6 +50,13 @@ class _Captured(Exception):
     pass
 
 
+def shipped_gas_table() -> pd.DataFrame:
+    """tests/data/pvt_gas.csv under the column names the flow module wants; its first row is 0 psi."""
+    from ..drivers import reservoir as rdrv  # noqa: PLC0415
+
+    return rdrv.shipped_table("pvt_gas").copy()
+
+
 def pvt_table() -> pd.DataFrame:
     return pd.read_csv(env.REPO / "tests/data/pvt_gas_HAYNESVILLE SHALE_20.csv")
 
@@ -293,7 +300,7 @@ def rf_lib(ref: dict, pvt, days, tau, p_i, pf):
 
 def schedule(rng, n, p_i):
     """A frac-face pressure history below p_initial and inside the table's range."""
-    kind = int(rng.integers(3))
+    kind = int(rng.integers(5))
     top = min(0.8 * p_i, 6000.0)
     if kind == 0:
         pf = np.full(n, rng.uniform(300.0, top))
@@ -301,8 +308,18 @@ def schedule(rng, n, p_i):
         pf = np.full(n, rng.uniform(1500.0, top))
         for cut in sorted(rng.integers(1, n, size=2)):
             pf[cut:] *= rng.uniform(0.4, 0.9)
-    else:
+    elif kind == 2:
         pf = np.linspace(rng.uniform(2000.0, top), rng.uniform(300.0, 1500.0), n) + rng.uniform(-50, 50, n)
+    elif kind == 3:
+        # a well that is choked back / shut in for a while: the pressure at the fracture face rises again (still below p_initial)
+        pf = np.full(n, rng.uniform(300.0, 0.5 * top))
+        a, b = sorted(rng.integers(1, n, size=2))
+        pf[a:max(b, a + 1)] = rng.uniform(0.6 * top, top)
+    else:
+        # a gauge with spikes
+        pf = np.linspace(rng.uniform(2000.0, top), rng.uniform(300.0, 1500.0), n)
+        k = rng.permutation(n)[: max(1, n // 6)]
+        pf[k] = pf[k] + rng.uniform(-900.0, 900.0, len(k))
     return np.clip(pf, 100.0, top)
 
 
@@ -398,10 +415,14 @@ def gi_row(seed, i: int) -> int:
 
 def fit_events(ref: dict, seed, count: int) -> list[dict]:
     rng = np.random.default_rng(seed)
-    pvt = pvt_table()
+    pvt_h, pvt_s = pvt_table(), shipped_gas_table()
     evs = []
     for i in range(count):
+        zero_day = gi_row(seed, i) % 4 == 2     # the shipped gas table starts at 0 psi: a producing day at exactly 0.0 psig (blow-down)
+        pvt = pvt_s if zero_day else pvt_h
         gen, days, gas, pf = make_table(rng, ref, pvt)
+        if zero_day:
+            pf[int(rng.integers(len(pf) // 2, len(pf) - 2))] = 0.0
         n0 = len(days)
         filt = bool(i % 3 != 2)
         gas, pres = gas.copy(), pf.copy()
@@ -410,7 +431,7 @@ def fit_events(ref: dict, seed, count: int) -> list[dict]:
         idx = rng.permutation(np.arange(1, n0 - 1))
         gas[idx[:nz]] = 0.0
         pres[idx[nz:nz + nm]] = np.nan
-        window = [None, 1, 3][int(rng.integers(3))]
+        window = [None, 1, 3, 9][int(rng.integers(4))]
         extra = np.ones(n0)
         if gi_row(seed, i) % 3 == 1:
             extra[rng.permutation(n0)[: max(2, n0 // 5)]] = np.nan   # another metered column with gaps of its own
@@ -420,6 +441,8 @@ def fit_events(ref: dict, seed, count: int) -> list[dict]:
                        i + (int(seed[2]) // 3 if isinstance(seed, (list, tuple)) and len(seed) > 2 else 0))
         n_iter = [1, 4, 20][i % 3] if (i // 3) % 2 == 0 else [20, 1, 4][i % 3]
         pimax = float(rng.choice([12000.0, 13000.0, 13900.0]))
+        if zero_day:
+            pimax = float(rng.choice([11000.0, 11900.0]))   # the shipped gas table ends at 12 000 psi
         inplace = float(rng.choice([1e5, 3e5]))
         gi = i + (int(seed[2]) if isinstance(seed, (list, tuple)) and len(seed) > 2 else 0)   # index across batches
         if gi % 4 == 3:
@@ -442,7 +465,8 @@ def fit_events(ref: dict, seed, count: int) -> list[dict]:
               "cexp_q": quant.q(float(np.cumsum(gas[kept])[-2]), 0.0, inplace),
               "pexp_q": quant.q(float(np.nanmax(pres[kept].astype(float))), 0.0, pimax),
               "tq": list(quant.NANQ), "mq": list(quant.NANQ),
-              "cprev_q": list(quant.NANQ), "pq": list(quant.NANQ), "pfmax_q": list(quant.NANQ), "w1_e15": -1, "excl_e15": -1, "raw": raw}
+              "cprev_q": list(quant.NANQ), "pq": list(quant.NANQ), "pfmax_q": list(quant.NANQ), "plo_q": list(quant.NANQ),
+              "w1_e15": -1, "excl_e15": -1, "raw": raw}
         ob = None
         try:
             ob = observe(cap)
@@ -482,6 +506,7 @@ def fit_events(ref: dict, seed, count: int) -> list[dict]:
             if cum is not None and abs(mmin - float(cum[-2])) > 1e-9 * max(1.0, abs(float(cum[-2]))):
                 ev["outcome"] = f"declared lower limit of M is {mmin!r}, the second-to-last cumulative production is {float(cum[-2])!r}"
             ev["pfmax_q"] = quant.q(float(np.max(np.asarray(pfa, dtype=float))), 0.0, pimax)
+            ev["plo_q"] = quant.q(float(cap["params"]["p_initial"].min) if "p_initial" in cap["params"] else math.nan, 0.0, pimax)
             if window in (None, 1):
                 through = pres[(gas > 0) & ~np.isnan(pres)] if filt else pres
                 ev["w1_e15"] = arr_e15(pfa, through, float(np.max(np.abs(through))))
